@@ -22,7 +22,9 @@ pub fn parse(raw: &[u8]) -> Result<IndexMap<String, Vec<u8>>> {
     // Validate magic number.
     let magic = cursor.read_u32::<BigEndian>()?;
     if magic != MAGIC {
-        todo!()
+        return Err(crate::ArchiveError::OtherError(
+            "Not a pack archive: bad magic number.".to_string(),
+        ));
     }
 
     // Retrieve the file count.
